@@ -11,13 +11,16 @@ pub fn copy_file_range(
     dest_offset: u64,
     len: usize,
 ) -> crate::Result<usize> {
+    // The kernel takes pointers to the offsets (and advances them), not the offsets themselves
+    let mut src_offset = src_offset;
+    let mut dest_offset = dest_offset;
     let res = unsafe {
         syscall!(
             COPY_FILE_RANGE,
             src_fd.value(),
-            src_offset,
+            core::ptr::addr_of_mut!(src_offset),
             dest_fd.value(),
-            dest_offset,
+            core::ptr::addr_of_mut!(dest_offset),
             len,
             0
         )
